@@ -60,6 +60,11 @@ def one_case(rng, tier):
             # long intervals in the string forms the API accepts ('90min', '1D', '25h'); virtual time makes them free
             nodes[-1]['interval'] = rng.choice([5400.0, 86400.0, 90000.0])
             nodes[-1]['ival_str'] = True
+        elif rng.random() < 0.1:
+            # the interval as a numpy scalar (what an array computation hands over)
+            iv = nodes[-1]['interval']
+            nodes[-1]['ival_str'] = False
+            nodes[-1]['ival_np'] = rng.choice(['int64', 'int32'] if iv == int(iv) and iv > 0 else ['float64', 'float64', 'float32'])
         if rng.random() < 0.3:
             add({'op': 'map', 'f': 'ident'})
     g = aprogs.AGen(rng)
@@ -76,7 +81,10 @@ def one_case(rng, tier):
                 steady if style == 'steady' else rng.choice(aprogs.GAP_GRID + [3.0, 5.0])
             items.append([gap, rng.choice(entries), rng.randrange(6), 1])
         prods.append(items)
-    return {'prog': prog, 'producers': prods, 'awaiting': rng.random() < 0.6}
+    case = {'prog': prog, 'producers': prods, 'awaiting': rng.random() < 0.6}
+    if rng.random() < 0.3:
+        case['t0'] = 1.7e9          # the clock reads like a real one (seconds since 1970), not like a stopwatch
+    return case
 
 
 def check_case(case, counters, sets):
